@@ -192,10 +192,10 @@ def write(tabs, traces=None, path=None):
     return names, info, traces
 
 
-KINDS = {'c01': ('wrapC01', 'c01OK'), 'c03': ('wrapC03', 'c03OK'), 'c05': ('wrapC05', 'c05OK'), 'c07': ('wrapC07', 'c07OK')}
+KINDS = {'c01': ('wrapC01', 'c01OK'), 'c03': ('wrapC03', 'c03OK'), 'c05': ('wrapC05', 'c05OK'), 'c07': ('wrapC07', 'c07OK'), 'c08': ('wrapC08', 'c08OK')}
 
 
-def write_obligations(tabs, info, kinds=('c01', 'c03', 'c05', 'c07')):
+def write_obligations(tabs, info, kinds=('c01', 'c03', 'c05', 'c07', 'c08')):
     """IRGen/WrapObl_<kind>.lean: `<kind>OK P_x W_x = true` by kernel evaluation for every protocol of the fragment of
     that kind (tools/fragment.json).  returns (theorem names, [(protocol, why it can no longer be stated)], modules)"""
     frag = json.load(open(os.path.join(vlib.VERIF, 'tools', 'fragment.json')))
